@@ -64,7 +64,7 @@ def check(chk):
                         ok = rev is not None and src(rev) == "True" and kwarg(cc, "key") is None
                         chk.ob("SORT-3", "the stack is sorted descending by the entries' own order (%s)" % f.name, ok, f.where(cc), construct=f.ident,
                                text="sort args " + short(cc, 60))
-    chk.expect(n_app >= 2, "C09: stack insertion sites lost")
+    chk.need(n_app >= 2, "SORT-3", "new colours are inserted into the light stack (color / fade-out removal)", repo.func(LT, "Light._add_to_stack"), "found %d insertion site(s)" % n_app)
     gt = repo.func(LT, "LightStackEntry.__gt__")
     rets = [x for x in walk_local(gt.node) if isinstance(x, ast.Return)]
     t = src(rets[0].value).replace(" ", "") if rets else ""
@@ -238,7 +238,7 @@ def check(chk):
             ok = ms is not None and src(ms) == "fade_ms" and cb is not None and "_remove_fade_out" in src(cb) and "key=key" in src(cb).replace(" ", "")
             chk.ob("UNIT-3", "the fade-out entry is removed after exactly fade_ms by a callback bound to its key", ok, g.where(c), construct=g.ident,
                    text="fadeout removal delay")
-    chk.expect(n_u >= 3, "C09: fade arithmetic anchors lost")
+    chk.need(n_u >= 3, "UNIT-3", "fade end times are computed (start + fade_ms / 1000)", repo.func(LT, "Light._add_to_stack"), "found %d" % n_u)
     for rel, qn in ((LI, "LightPlatformDirectFade.set_fade"),):
         g = repo.func(rel, qn)
         for kind, node, detail in units.scan_function(g):
